@@ -401,3 +401,49 @@ mod tests {
         }
     }
 }
+
+#[cfg(feature = "verif-hooks")]
+pub mod vh {
+    use super::*;
+
+    pub struct SpaceHook(Space);
+
+    impl SpaceHook {
+        pub fn new(anchor: DVec3, width: DVec3, max_cell_width: f64) -> Self {
+            SpaceHook(Space::new(anchor, width, max_cell_width))
+        }
+        pub fn add_parts(&mut self, positions: &[DVec3]) {
+            self.0.add_parts(positions)
+        }
+        pub fn knn(&self, k: usize) -> Vec<Vec<usize>> {
+            self.0.knn(k)
+        }
+        pub fn cdim(&self) -> [u32; 3] {
+            self.0.cdim.to_array()
+        }
+        pub fn cell_count(&self) -> usize {
+            self.0.cells.len()
+        }
+        pub fn cell_loc(&self, cid: usize) -> DVec3 {
+            self.0.cells[cid].loc
+        }
+        pub fn cell_width(&self, cid: usize) -> DVec3 {
+            self.0.cells[cid].width
+        }
+        pub fn get_cid(&self, i: i32, j: i32, k: i32) -> Option<usize> {
+            self.0.get_cid(i, j, k)
+        }
+        pub fn get_r_ring(&self, cid: usize, r: i32) -> Vec<usize> {
+            self.0.get_r_ring(cid, r)
+        }
+        pub fn cell_closest_loc(&self, cid: usize, pos: DVec3) -> DVec3 {
+            self.0.cells[cid].closest_loc(pos)
+        }
+        pub fn cell_min_distance_squared(&self, cid: usize, pos: DVec3) -> f64 {
+            self.0.cells[cid].min_distance_squared(pos)
+        }
+        pub fn cell_min_distance_to_face(&self, cid: usize, pos: DVec3) -> f64 {
+            self.0.cells[cid].min_distance_to_face(pos)
+        }
+    }
+}
